@@ -146,14 +146,51 @@ async def sk_flags_survive_a_pack(hp, w, rnd, ctx):
     await w.observe()
 
 
+async def sk_flags_follow_messages_through_rename_inbox(hp, w, rnd, ctx):
+    """INBOX whose message numbers have gaps (messages were expunged from the
+    middle), every message with its own flag set; RENAME INBOX moves them: in
+    the new mailbox each message has exactly its flags (FETCH, SEARCH, on disk),
+    what is appended there afterwards has only its own, and the same after a
+    restart."""
+    a = w.session()
+    b2 = w.session()
+    sets = [["\\Seen"], ["\\Deleted"], ["\\Answered", "kw1"], [], ["\\Flagged", "\\Seen"], ["\\Deleted"], ["\\Draft"], ["$Forwarded", "\\Seen"], ["kw1"]]
+    for fl in sets:
+        await w.op_append(a, "INBOX", flags=fl)
+    await w.op_select(a, "INBOX")
+    await w.op_select(b2, "INBOX")
+    await w.op_expunge(a)  # takes 2 and 6: the keys are 1,3,4,5,7,8,9 now
+    await w.op_noop(b2)
+    await w.observe()
+    await w.op_rename(a, "INBOX", "saved")
+    await w.observe()
+    w.check_disk("saved")
+    await w.op_select(a, "saved")
+    await w.ensure_uids_known(a)
+    for key in ("SEEN", "UNSEEN", "ANSWERED", "FLAGGED", "DRAFT", "KEYWORD kw1", "KEYWORD $Forwarded"):
+        await w.op_search_flag(a, key)
+    await w.op_append(b2, "saved")
+    await w.op_append(b2, "saved", flags=["\\Flagged"])
+    await w.op_append(b2, "INBOX")
+    await w.op_noop(a)
+    await w.observe()
+    w.check_disk("saved")
+    w.check_disk("INBOX")
+    await w.op_store(a, [2, 3], "add", ["NonJunk"])
+    await w.observe()
+    await w.restart()
+    await w.observe()
+    w.check_disk("saved")
+
+
 class C04(HistProp):
     prop = PROP
     names = ["INBOX", "other"]
     pack_limits = [100, 100, 100, 100, 4, 100, 6]
-    skeletons = [sk_all_single_message_flag_sets, sk_store_semantics, sk_collision_keywords, sk_store_over_mixed_recent, sk_flags_survive_a_pack]
+    skeletons = [sk_all_single_message_flag_sets, sk_store_semantics, sk_collision_keywords, sk_store_over_mixed_recent, sk_flags_survive_a_pack, sk_flags_follow_messages_through_rename_inbox]
     weights = {"store": 16, "uid_store": 10, "store_del": 3, "fetch": 6, "fetch_body": 6, "uid_fetch": 4, "append": 8, "copy": 5, "uid_copy": 2, "move": 2, "noop": 10,
-               "search_flag": 8, "deliver": 3, "expunge": 3, "idle": 2, "examine": 2, "deliver_stalled": 2, "advance": 2}
-    opts = {"flag_pool": ORDINARY, "examine_prob": 0.1}
+               "search_flag": 8, "deliver": 3, "expunge": 3, "idle": 2, "examine": 2, "deliver_stalled": 2, "advance": 2, "rename_inbox": 1}
+    opts = {"flag_pool": ORDINARY, "examine_prob": 0.1, "rename_targets": ["saved", "saved2"]}
     observer_cadence = [1, 2, 0]
     initial = (1, 6)
     nsessions = (2, 3)
@@ -167,8 +204,8 @@ class C04(HistProp):
         await super().setup(w, rnd, ctx)
 
     async def post_step(self, w, rnd):
-        for nm in self.names:
-            if nm in w.boxes:
+        for nm in list(w.boxes):
+            if not w.boxes[nm].noselect:
                 w.check_disk(nm)
 
     def nontrivial(self, w):
